@@ -310,7 +310,7 @@ func cmdCheck(args []string) int {
 	for _, msg := range guardCoverage(P, CS, *prop) {
 		violation("lock.coverage:"+truncate(msg, 80), map[string]interface{}{"obligation": "lock.coverage", "error": msg}, false)
 	}
-	timeout := 10
+	timeout := 20
 	if *tier == "thorough" {
 		timeout = 60
 	}
